@@ -22,11 +22,9 @@ def gen_dir(rng, depth, maxdepth, width):
 
 
 def valid(lst):
-    ps = sorted(lst)
-    for a, b in zip(ps, ps[1:]):
-        if b.startswith(a + b"/"):
-            return False
-    return True
+    # no path may also be a directory of another one (names around '/' make the two non-adjacent in byte order)
+    ds = set(dirs_of(lst))
+    return not any(p in ds for p in lst)
 
 
 def dirs_of(lst):
